@@ -197,8 +197,25 @@ func vpSame2(x, y [][]int) bool {
 // VP_C08_checker: (problem, arbitrary certificate) pairs through both entry points.
 func VP_C08_checker() {
 	n := zzvp.Param("n", 2)
-	F := vpConcreteCNF(n, zzvp.Param("m", 2), zzvp.Param("k", 2), "")
-	cert := vpConcreteCNF(n, zzvp.Param("cm", 2), zzvp.Param("ck", 2), "c")
+	var F, cert [][]int
+	if zzvp.Param("shape", 0) == 1 {
+		// a unit clause and a binary clause; a certificate of a binary line followed by a line of <=1 literal
+		lit := func(tag string) int {
+			l := zzvp.Int(tag, -n, n)
+			zzvp.Assume(l != 0)
+			return zzvp.Concretize(l)
+		}
+		F = [][]int{{lit("l")}, {lit("l"), lit("l")}}
+		cert = [][]int{{lit("cl"), lit("cl")}}
+		if zzvp.Choose("second", 2) == 1 {
+			cert = append(cert, []int{lit("cl")})
+		} else {
+			cert = append(cert, []int{})
+		}
+	} else {
+		F = vpConcreteCNF(n, zzvp.Param("m", 2), zzvp.Param("k", 2), "")
+		cert = vpConcreteCNF(n, zzvp.Param("cm", 2), zzvp.Param("ck", 2), "c")
+	}
 	pb, err := ParseCNF(strings.NewReader(vpDimacs(n, F)))
 	zzvp.Assert(err == nil, "ParseCNF failed on a well-formed problem")
 	if err != nil {
